@@ -765,6 +765,9 @@ def drv_rank_chop(doc, args, inst):
     msgs = []
     cands = [(np.array(s, dtype=np.float64), eps)]
     # the tie family around the model: equal singular values with the threshold exactly on a partial tail
+    for sc in (1e-9, 1e-12):
+        cands.append((np.array([3.0, 2.0, 1.0]) * sc, 1e-3 * sc))
+        cands.append((np.array([1.0, 1.0]) * sc, 0.5 * sc))
     for m in (2, 3, 4):
         cands.append((np.ones(m), 1.0))
         cands.append((np.array([2.0] + [1.0] * (m - 1)), 1.0))
@@ -783,7 +786,7 @@ def drv_rank_chop(doc, args, inst):
 DRIVERS.update({'rank_chop': drv_rank_chop})
 
 
-def drv_tt_svd(doc, args, inst):
+def _tt_svd_one(doc, args, inst):
     """TT-SVD replay: tensors with engineered unfolding spectra (every bond truncates at the edge of its allowance) and ties"""
     msgs = []
     N = [clampi(n, 1, 5) for n in inst['N']]
@@ -802,6 +805,10 @@ def drv_tt_svd(doc, args, inst):
         except Exception:
             rmax = 10 ** 6
         rmax = max(1, min(rmax, 10 ** 6))
+    if 'ledger' in doc.get('obligation', '') and not isinstance(rmax, list):
+        rmax = 10 ** 6          # the ledger obligation is about the non-binding case
+    if not M and max(N) <= 3:
+        N = [4 if n > 1 else 1 for n in N]     # same singleton pattern, room for an engineered spectrum
     g = tn.Generator().manual_seed(0)
     cases = []
     full_shape = (M + N) if M else N
@@ -821,7 +828,7 @@ def drv_tt_svd(doc, args, inst):
         for p_ in range(1, len(N)):
             nl, nr = int(np.prod(N[:p_])), int(np.prod(N[p_:]))
             r_ = min(nl, nr)
-            if r_ >= 3:
+            if r_ >= 2:
                 for e0 in (eps, 0.1, 0.3):
                     U_, _ = tn.linalg.qr(tn.randn(nl, r_, dtype=tn.float64, generator=g))
                     V_, _ = tn.linalg.qr(tn.randn(nr, r_, dtype=tn.float64, generator=g))
@@ -855,6 +862,37 @@ def drv_tt_svd(doc, args, inst):
                 msgs.append('TT(dense %s, eps=%g) has relative error %.4g > eps (ranks %s)' % (full_shape, e, err, R))
             if msgs:
                 return msgs
+    return msgs
+
+
+
+
+def drv_tt_svd(doc, args, inst):
+    """replays the model's structure, then (engineered family around the model) every placement of its singleton modes"""
+    import itertools
+    msgs = _tt_svd_one(doc, args, inst)
+    if msgs or inst.get('M'):
+        return msgs
+    try:
+        N = [int(n) for n in inst['N']]
+    except Exception:
+        return msgs
+    d = len(N)
+    k1 = sum(1 for n in N if n == 1)
+    tried = 0
+    for k in sorted(set([k1, 1, 2])):
+        if k <= 0 or k > d - 2:
+            continue
+        for pos in itertools.combinations(range(1, d - 1), k):
+            N2 = [1 if i in pos else 4 for i in range(d)]
+            if N2 == [4 if n > 1 else 1 for n in N]:
+                continue
+            tried += 1
+            if tried > 8:
+                return msgs
+            msgs = _tt_svd_one(doc, args, dict(inst, N=N2))
+            if msgs:
+                return ['(singleton modes moved to %s) ' % (list(pos),) + m for m in msgs]
     return msgs
 
 
